@@ -1,7 +1,7 @@
 SPECIFICATION Spec
 CONSTANTS
     Focus = "general"
-    Cfgs <- McCfgs
+    Cfgs <- McCfgsQuick
     Ctors <- McCtors
     Layouts <- McLayouts
     MaxOps = 3
